@@ -397,4 +397,22 @@ PROPS = {
         "quick": {"runs": [q(deadline=45)], "floor": {"matcher_cases": 500, "constraint_cases": 500, "stop_cases": 1000, "stopped_runs": 800, "illegal_calls": 300, "distinct_nontrivial": 600}},
         "thorough": {"runs": [q(deadline=1200, watchdog=3600)], "floor": {"matcher_cases": 10000, "stop_cases": 20000}},
     },
+    "C19": {
+        "eval_counter": "special_ids_checked",
+        "case_counter": "text_cases",
+        "rule": "three workloads. (a) text grammars (literals / regexes / JSON keys and enum values that spell special-token names such as "
+                "<a>, <|end|>, <think>; `.`-style catch-alls; %ignore; negated classes; guarded and unguarded ~) over vocabularies whose "
+                "specials are named <a>, <b>, <ab>, <|tool|>, <think>, </think>, <\"x\">, <1>, <x>, <|end|>: at every state of a walk no "
+                "special id may be in the mask (EOS only when accepting), the bare marker token never, and validate/commit on clones must "
+                "refuse specials. (b) grammars generated from a harness-side model `\"q\" A \"w\" B \"k\" | ...` with A,B drawn from <name>, "
+                "<[id]>, <[a-b,...]>, <[^...]>, <[*]> (ids near 0, 31/32/33, 255/256, vocab-2, vocab-1): at each token position the mask "
+                "must equal exactly the union of the sets denoted by the alternatives still consistent with the history (all ids compared), "
+                "at text positions exactly the literal's byte token, and validate/commit must agree on probes at the range ends. "
+                "(c) tokenisation: plain text spelling a special's name yields no special id and round-trips; \\xFF<name> and \\xFF[id] "
+                "yield exactly that id, for the Approximate and tiktoken environments. evaluations = special ids checked against masks. "
+                "Non-trivial = walk of >=2 tokens / token-reference grammar fully traversed; distinct by (grammar, history, vocabulary).",
+        "assumptions": ["HF added-token matching inside plain text is adapter policy (excluded by the property text) and is not asserted"],
+        "quick": {"runs": [q(deadline=45)], "floor": {"text_cases": 800, "ref_cases": 600, "positions_checked": 3000, "tokenize_checks": 300, "distinct_nontrivial": 900}},
+        "thorough": {"runs": [q(deadline=1200, watchdog=3600)], "floor": {"text_cases": 15000, "ref_cases": 10000}},
+    },
 }
